@@ -312,6 +312,11 @@ class SymEval:
                 self.norms[nm] = v * v  # |x|^2 = x^2
                 return RF.atom(nm)
             raise NotSym("abs of a vector")
+        if ch in ("max", "min") and len(args) >= 2 and not e.keywords:
+            vals = [self.ev(a) for a in args]
+            if all(isinstance(v, RF) for v in vals):
+                return RF.atom(f"{ch}[" + ", ".join(sorted(repr(v) for v in vals)) + "]")  # an opaque scalar: nothing is assumed about which argument wins
+            raise NotSym("max/min of vectors")
         if dump(fn) == "__store__" and len(e.args) == 3:
             return self.store(e)
         raise NotSym(f"call {dump(fn)[:50]}")
